@@ -3,6 +3,8 @@ package props
 import (
 	"encoding/json"
 	"fmt"
+	"os"
+	"path/filepath"
 	"sort"
 	"strings"
 	"testing"
@@ -288,6 +290,18 @@ func (c08) Run(t *testing.T, tape *core.Tape, rcx *RunCtx) *core.Result {
 	}
 	findingOpen := rcx.Findings[c08Finding]
 	var handles []*c08Handle
+	type c08File struct {
+		path string
+		id   int
+		spec tval // what the value-semantics model says was written
+		cell tval // what the storage held when it was written (finding model)
+	}
+	var files []c08File
+	defer func() {
+		for _, f := range files {
+			os.Remove(f.path)
+		}
+	}()
 	cells := map[int]tval{} // finding model storage; cells 1..33 are the defaults, >= 1000 are fresh
 	for _, id := range c08IDs {
 		cells[id] = c08Pristine[id].clone()
@@ -404,15 +418,38 @@ func (c08) Run(t *testing.T, tape *core.Tape, rcx *RunCtx) *core.Result {
 				sc.Steps = append(sc.Steps, c08Step{Op: opName, Result: fmt.Sprintf("h%d", len(handles)-1)})
 				check(opName)
 			case 4:
-				h := pickHandle()
-				hi := indexOf(handles, h)
-				b, err := json.Marshal(h.tbl)
-				if err != nil {
-					panic("harness: json.Marshal: " + err.Error())
+				// JSON round trip: in memory, through a file (the library's own writer and
+				// reader), or reading again a file written earlier in this history - which
+				// must still hold what was written then, whatever happened to the tables since
+				mode := tape.Weighted(45, 35, 20)
+				if mode == 2 && len(files) == 0 {
+					mode = 1
 				}
-				out := codon.ParseCodonJSON(b)
-				nh := &c08Handle{tbl: out, id: h.id, spec: h.spec.clone(), cell: nextCell, origin: fmt.Sprintf("JSON(h%d)", hi)}
-				cells[nextCell] = cells[h.cell].clone()
+				var nh *c08Handle
+				switch mode {
+				case 0:
+					h := pickHandle()
+					b, err := json.Marshal(h.tbl)
+					if err != nil {
+						panic("harness: json.Marshal: " + err.Error())
+					}
+					nh = &c08Handle{tbl: codon.ParseCodonJSON(b), id: h.id, spec: h.spec.clone(), cell: nextCell, origin: fmt.Sprintf("JSON(h%d)", indexOf(handles, h))}
+					cells[nextCell] = cells[h.cell].clone()
+				case 1:
+					h := pickHandle()
+					path := filepath.Join(rcx.TmpDir, fmt.Sprintf("c08-%d-%d.json", rcx.Index, len(files)))
+					codon.WriteCodonJSON(h.tbl, path)
+					files = append(files, c08File{path: path, id: h.id, spec: h.spec.clone(), cell: cells[h.cell].clone()})
+					nh = &c08Handle{tbl: codon.ReadCodonJSON(path), id: h.id, spec: h.spec.clone(), cell: nextCell, origin: fmt.Sprintf("ReadCodonJSON(WriteCodonJSON(h%d, f%d))", indexOf(handles, h), len(files)-1)}
+					cells[nextCell] = cells[h.cell].clone()
+					res.Count("probe_json_through_a_file", 1)
+				default:
+					fi := tape.Draw(len(files))
+					f := files[fi]
+					nh = &c08Handle{tbl: codon.ReadCodonJSON(f.path), id: f.id, spec: f.spec.clone(), cell: nextCell, origin: fmt.Sprintf("ReadCodonJSON(f%d) again", fi)}
+					cells[nextCell] = f.cell.clone()
+					res.Count("probe_json_file_read_again_later", 1)
+				}
 				nextCell++
 				handles = append(handles, nh)
 				sc.Steps = append(sc.Steps, c08Step{Op: nh.origin, Result: fmt.Sprintf("h%d", len(handles)-1)})
